@@ -356,6 +356,8 @@ def process_environment(hashseed):
         "epoch": r.choice((0.0, 86399.0, 946684799.0, 1700000000.0, 4102444800.0)) + r.randrange(10 ** 6),
         "tick": r.choice((1e-6, 0.001, 0.75, 61.0, 86400.0)),
         "cpu_count": r.choice((1, 2, 16, 128)),
+        # interpreter optimisation level of the tool process (python, python -O, python -OO)
+        "optimize": r.choice((0, 0, 0, 0, 0, 1, 2)),
         "cwd": r.choice(CWDS),
         "environ": {"TZ": r.choice(TZS), "USER": r.choice(("root", "alice", "bob")),
                     "LOGNAME": r.choice(("root", "alice")), "HOME": r.choice(("/root", "/home/alice", "/")),
@@ -374,7 +376,8 @@ def run_process(hashseed, ops, timeout=900, penv=None):
     core = [{k: v for k, v in op.items() if k not in ("label", "oclass", "fault", "key")}
             for op in ops]
     try:
-        p = subprocess.run([PYTHON, WORKER],
+        opt = ["-" + "O" * int(penv.get("optimize", 0))] if penv.get("optimize") else []
+        p = subprocess.run([PYTHON] + opt + [WORKER],
                            input=json.dumps({"ops": core, "penv": penv}), env=env,
                            capture_output=True, text=True, timeout=timeout, cwd=VERIF_DIR)
     except subprocess.TimeoutExpired:
@@ -405,9 +408,11 @@ def _alone(op, hashseed, penv=None):
 
 def _blame_environment(op, seed, pa, pb, ra):
     """Which component of the process environment flips the answer from ra?"""
-    for comp in ("clock", "TZ", "cwd", "identity"):
+    for comp in ("optimize", "clock", "TZ", "cwd", "identity"):
         mix = json.loads(json.dumps(pa))
-        if comp == "clock":
+        if comp == "optimize":
+            mix["optimize"] = pb.get("optimize", 0)
+        elif comp == "clock":
             mix["epoch"], mix["tick"] = pb["epoch"], pb["tick"]
         elif comp == "TZ":
             mix["environ"]["TZ"] = pb["environ"]["TZ"]
@@ -416,6 +421,7 @@ def _blame_environment(op, seed, pa, pb, ra):
         else:
             tz = mix["environ"]["TZ"]
             mix["environ"] = dict(pb["environ"], TZ=tz)
+            mix["cpu_count"] = pb.get("cpu_count")
         if _alone(op, seed, mix) != ra:
             return comp, mix
     return "combination", pb
@@ -592,6 +598,8 @@ def main(tier):
                    "clock_epoch_and_rate_skew": len(set((process_environment(h["hashseed"])["epoch"],
                                                           process_environment(h["hashseed"])["tick"])
                                                          for h in hist)),
+                   "interpreter_optimisation_level_O_or_OO": sum(
+                       1 for h in hist if process_environment(h["hashseed"]).get("optimize")),
                    "timezone_cwd_identity_skew": len(set(json.dumps(process_environment(h["hashseed"])["environ"],
                                                                       sort_keys=True) +
                                                            process_environment(h["hashseed"])["cwd"]
